@@ -124,6 +124,12 @@ reg("C10",
     "Default allow-lists (the serializer's sanitize option offers no others). Two known findings stem from the serializer dropping namespaces (element and attribute namespace shift), each with an exact classifier.",
     "DESIGN.md §3 C10")
 
+reg("C08",
+    "round trip through an independent reference lexer (vf/ref/tokenizer.py) driven by the known element context: serializer output over walker streams of trees parsed from arbitrary generated markup must read back as exactly the given tokens, or a serialization error must have been reported (and raised in strict mode)",
+    "Exploration: streams from soup-parsed trees (documents, fragments, both scripting flags, etree/dom walkers) x generated serializer option records with optional-tag omission off; tags, attribute names/values, concatenated text, comments and doctype fields are compared token by token. Recorded serializer defects are attributed by feature classifiers on the given stream (named triggers), everything else is a violation. Held on everything explored.",
+    "Trusted: the reference tokenizer (C02). 9 recorded findings (raw-text handling by element name only, plaintext, namespaced attribute prefixes, boolean minimisation, doctype quoting, element children of RCDATA elements...). One defect repaired.",
+    "DESIGN.md §3 C08")
+
 NOT_APPLICABLE = {}
 
 
